@@ -125,7 +125,17 @@ def generate(seed, tier="quick"):
             sites[sid] = {"op": "eq", "place": rng.choice(["func", "lam"]), "arg": 'Is(G["v"])' if wrapped else 'G["v"]', "prev": None,
                           "dyn": "is" if wrapped else "bare"}
             g = [rng.randint(0, 3) for _ in range(rng.randint(2, 3))]
-            per_site.append([{"t": "cmp", "site": sid, "vals": [["int", x]], "setg": x, "style": "rec"} for x in g])
+            shape = rng.choice(["plain", "plain", "mixed", "two-is"])
+            if shape == "mixed":
+                # a changing hand-written part in front of an Is() part of the same container: still rejected
+                sites[sid].update(arg='[G["v"] * 3, Is(G["v"])]', dyn="bare")
+                per_site.append([{"t": "cmp", "site": sid, "vals": [["list", [["int", 3 * x], ["int", x]]]], "setg": x, "style": "rec"} for x in g])
+            elif shape == "two-is":
+                # several Is() parts in one container: every one of them is refreshed on each evaluation
+                sites[sid].update(arg='{"a": Is(G["v"]), "b": Is(G["v"] + 1), "c": 5}', dyn="is")
+                per_site.append([{"t": "cmp", "site": sid, "vals": [["dict", [[["str", "a"], ["int", x]], [["str", "b"], ["int", x + 1]], [["str", "c"], ["int", 5]]]]], "setg": x, "style": "rec"} for x in g])
+            else:
+                per_site.append([{"t": "cmp", "site": sid, "vals": [["int", x]], "setg": x, "style": "rec"} for x in g])
         for seq in per_site:
             for e in seq:
                 eid_n += 1
@@ -303,7 +313,16 @@ def execute(case, ctx):
             gs = [e["setg"] for e in evs]
             ctx.count("probe_reevaluated_argument")
             key = (fname[sid], sid)
-            if R["after"][key].region_text != R["before"][key].region_text and (s["dyn"] == "is" or "update" not in approved):
+            def _tree(c):
+                import ast
+
+                try:
+                    return ast.dump(ast.parse("(\n" + (c.arg_text or "None") + "\n)", mode="eval"))
+                except SyntaxError:
+                    return c.region_text
+
+            # (compared as syntax trees: whole-file formatting may re-wrap a hand-written container)
+            if _tree(R["after"][key]) != _tree(R["before"][key]) and (s["dyn"] == "is" or "update" not in approved):
                 viol("re-evaluation", f"user-argument-rewritten:{s['dyn']}", f"site {sid}: {R['before'][key].region_text!r} -> {R['after'][key].region_text!r}")
             if s["dyn"] == "is":
                 if any(isinstance(a, str) for a in answers):
